@@ -8,9 +8,10 @@ Open Scope Z_scope.
 Section Sem.
 Variable p : program.
 
-Inductive msev (inp : inputs) : expr -> Z -> Prop :=
+Inductive msev (inp : menv) : expr -> Z -> Prop :=
 | msev_const : forall z, msev inp (EConst z) z
-| msev_input : forall n v, nkind n = KInput -> input_get inp (nidx n) = Some v -> msev inp (ERead n) v
+| msev_input : forall n v, nkind n = KInput -> input_get (fst inp) (nidx n) = Some v -> msev inp (ERead n) v
+| msev_ext : forall n v, nkind n = KExternal -> snd inp (nidx n) = Some v -> msev inp (ERead n) v
 | msev_exec : forall n b v, is_mexec_kind (nkind n) = true -> alookup p n = Some b -> msev inp b v -> msev inp (ERead n) v
 | msev_add : forall a b x y, msev inp a x -> msev inp b y -> msev inp (EAdd a b) (x + y)
 | msev_mul : forall a b x y, msev inp a x -> msev inp b y -> msev inp (EMul a b) (x * y)
@@ -20,19 +21,18 @@ Inductive msev (inp : inputs) : expr -> Z -> Prop :=
 | msev_gnil : msev inp (EGroup []) 0
 | msev_gcons : forall n ns x y, msev inp (ERead n) x -> msev inp (EGroup ns) y -> msev inp (EGroup (n :: ns)) (x + y).
 
-Definition MSpecI (inp : inputs) (n : node) (v : Z) : Prop := msev inp (ERead n) v.
+Definition MSpecI (inp : menv) (n : node) (v : Z) : Prop := msev inp (ERead n) v.
 
 Lemma msev_det : forall inp e v1, msev inp e v1 -> forall v2, msev inp e v2 -> v1 = v2.
 Proof.
   intros inp e v1 H. induction H; intros v2 H2; inversion H2; subst; try congruence;
+    try (match goal with H1 : nkind ?n = _, H2 : is_mexec_kind (nkind ?n) = true |- _ => rewrite H1 in H2; discriminate end);
     repeat match goal with
     | IH : forall v2, msev _ ?e v2 -> _ = v2, H : msev _ ?e _ |- _ => apply IH in H; subst
     end; try reflexivity.
-  - match goal with H1 : nkind n = KInput, H2 : is_mexec_kind (nkind n) = true |- _ => rewrite H1 in H2; discriminate end.
-  - match goal with H1 : nkind n = KInput, H2 : is_mexec_kind (nkind n) = true |- _ => rewrite H1 in H2; discriminate end.
-  - match goal with H1 : alookup p n = Some ?b1, H2 : alookup p n = Some ?b2 |- _ =>
-      assert (b1 = b2) by congruence; subst end.
-    auto.
+  match goal with H1 : alookup p n = Some ?b1, H2 : alookup p n = Some ?b2 |- _ =>
+    assert (b1 = b2) by congruence; subst end.
+  auto.
 Qed.
 
 Lemma MSpecI_det : forall inp n v1 v2, MSpecI inp n v1 -> MSpecI inp n v2 -> v1 = v2.
@@ -73,84 +73,130 @@ Proof.
 Qed.
 
 (** ** equivalence with the fuelled evaluator *)
-Lemma msexpr_mono : forall f inp e v, msexpr f p inp e = Some v ->
-  forall f', (f <= f')%nat -> msexpr f' p inp e = Some v.
+Lemma mxexpr_mono : forall f inp e v, mxexpr f p inp e = Some v ->
+  forall f', (f <= f')%nat -> mxexpr f' p inp e = Some v.
 Proof.
   induction f as [|f IH]; intros inp e v H f' Hle; [discriminate|].
   destruct f' as [|f']; [lia|]. assert (Hle' : (f <= f')%nat) by lia.
-  cbn [msexpr] in *. destruct e.
+  cbn [mxexpr] in *. destruct e.
   - exact H.
   - destruct (nkind n); try exact H; (destruct (alookup p n) as [b|]; [|discriminate]); eapply IH; eauto.
-  - destruct (msexpr f p inp e1) as [x|] eqn:E1; [|discriminate]. rewrite (IH _ _ _ E1 _ Hle').
-    destruct (msexpr f p inp e2) as [y|] eqn:E2; [|discriminate]. rewrite (IH _ _ _ E2 _ Hle'). exact H.
-  - destruct (msexpr f p inp e1) as [x|] eqn:E1; [|discriminate]. rewrite (IH _ _ _ E1 _ Hle').
-    destruct (msexpr f p inp e2) as [y|] eqn:E2; [|discriminate]. rewrite (IH _ _ _ E2 _ Hle'). exact H.
-  - destruct (msexpr f p inp e) as [x|] eqn:E1; [|discriminate]. rewrite (IH _ _ _ E1 _ Hle'). exact H.
-  - destruct (msexpr f p inp e1) as [x|] eqn:E1; [|discriminate]. rewrite (IH _ _ _ E1 _ Hle').
-    destruct (msexpr f p inp e2) as [y|] eqn:E2; [|discriminate]. rewrite (IH _ _ _ E2 _ Hle'). exact H.
-  - destruct (msexpr f p inp e1) as [x|] eqn:E1; [|discriminate]. rewrite (IH _ _ _ E1 _ Hle').
+  - destruct (mxexpr f p inp e1) as [x|] eqn:E1; [|discriminate]. rewrite (IH _ _ _ E1 _ Hle').
+    destruct (mxexpr f p inp e2) as [y|] eqn:E2; [|discriminate]. rewrite (IH _ _ _ E2 _ Hle'). exact H.
+  - destruct (mxexpr f p inp e1) as [x|] eqn:E1; [|discriminate]. rewrite (IH _ _ _ E1 _ Hle').
+    destruct (mxexpr f p inp e2) as [y|] eqn:E2; [|discriminate]. rewrite (IH _ _ _ E2 _ Hle'). exact H.
+  - destruct (mxexpr f p inp e) as [x|] eqn:E1; [|discriminate]. rewrite (IH _ _ _ E1 _ Hle'). exact H.
+  - destruct (mxexpr f p inp e1) as [x|] eqn:E1; [|discriminate]. rewrite (IH _ _ _ E1 _ Hle').
+    destruct (mxexpr f p inp e2) as [y|] eqn:E2; [|discriminate]. rewrite (IH _ _ _ E2 _ Hle'). exact H.
+  - destruct (mxexpr f p inp e1) as [x|] eqn:E1; [|discriminate]. rewrite (IH _ _ _ E1 _ Hle').
     eapply IH; eauto.
   - destruct ns as [|n ns]; [exact H|].
-    destruct (msexpr f p inp (ERead n)) as [x|] eqn:E1; [|discriminate]. rewrite (IH _ _ _ E1 _ Hle').
-    destruct (msexpr f p inp (EGroup ns)) as [y|] eqn:E2; [|discriminate]. rewrite (IH _ _ _ E2 _ Hle'). exact H.
+    destruct (mxexpr f p inp (ERead n)) as [x|] eqn:E1; [|discriminate]. rewrite (IH _ _ _ E1 _ Hle').
+    destruct (mxexpr f p inp (EGroup ns)) as [y|] eqn:E2; [|discriminate]. rewrite (IH _ _ _ E2 _ Hle'). exact H.
 Qed.
 
-Lemma msexpr_msev : forall f inp e v, msexpr f p inp e = Some v -> msev inp e v.
+Lemma mxexpr_msev : forall f inp e v, mxexpr f p inp e = Some v -> msev inp e v.
 Proof.
-  induction f as [|f IH]; intros inp e v H; [discriminate|]. cbn [msexpr] in H. destruct e.
+  induction f as [|f IH]; intros inp e v H; [discriminate|]. cbn [mxexpr] in H. destruct e.
   - inversion H. constructor.
   - destruct (nkind n) eqn:K; try discriminate.
     + apply msev_input; assumption.
     + destruct (alookup p n) as [b|] eqn:B; [|discriminate]. eapply msev_exec; eauto. rewrite K. reflexivity.
     + destruct (alookup p n) as [b|] eqn:B; [|discriminate]. eapply msev_exec; eauto. rewrite K. reflexivity.
     + destruct (alookup p n) as [b|] eqn:B; [|discriminate]. eapply msev_exec; eauto. rewrite K. reflexivity.
-  - destruct (msexpr f p inp e1) as [x|] eqn:E1; [|discriminate].
-    destruct (msexpr f p inp e2) as [y|] eqn:E2; [|discriminate]. inversion H. constructor; auto.
-  - destruct (msexpr f p inp e1) as [x|] eqn:E1; [|discriminate].
-    destruct (msexpr f p inp e2) as [y|] eqn:E2; [|discriminate]. inversion H. constructor; auto.
-  - destruct (msexpr f p inp e) as [x|] eqn:E1; [|discriminate]. inversion H. constructor; auto.
-  - destruct (msexpr f p inp e1) as [x|] eqn:E1; [|discriminate].
-    destruct (msexpr f p inp e2) as [y|] eqn:E2; [|discriminate]. inversion H. constructor; auto.
-  - destruct (msexpr f p inp e1) as [x|] eqn:E1; [|discriminate]. econstructor; eauto.
+    + apply msev_ext; assumption.
+  - destruct (mxexpr f p inp e1) as [x|] eqn:E1; [|discriminate].
+    destruct (mxexpr f p inp e2) as [y|] eqn:E2; [|discriminate]. inversion H. constructor; auto.
+  - destruct (mxexpr f p inp e1) as [x|] eqn:E1; [|discriminate].
+    destruct (mxexpr f p inp e2) as [y|] eqn:E2; [|discriminate]. inversion H. constructor; auto.
+  - destruct (mxexpr f p inp e) as [x|] eqn:E1; [|discriminate]. inversion H. constructor; auto.
+  - destruct (mxexpr f p inp e1) as [x|] eqn:E1; [|discriminate].
+    destruct (mxexpr f p inp e2) as [y|] eqn:E2; [|discriminate]. inversion H. constructor; auto.
+  - destruct (mxexpr f p inp e1) as [x|] eqn:E1; [|discriminate]. econstructor; eauto.
   - destruct ns as [|n ns]; [inversion H; constructor|].
-    destruct (msexpr f p inp (ERead n)) as [x|] eqn:E1; [|discriminate].
-    destruct (msexpr f p inp (EGroup ns)) as [y|] eqn:E2; [|discriminate]. inversion H. constructor; auto.
+    destruct (mxexpr f p inp (ERead n)) as [x|] eqn:E1; [|discriminate].
+    destruct (mxexpr f p inp (EGroup ns)) as [y|] eqn:E2; [|discriminate]. inversion H. constructor; auto.
 Qed.
 
-Lemma msev_msexpr : forall inp e v, msev inp e v -> exists f, msexpr f p inp e = Some v.
+Lemma msev_mxexpr : forall inp e v, msev inp e v -> exists f, mxexpr f p inp e = Some v.
 Proof.
   intros inp e v H. induction H.
   - exists 1%nat. reflexivity.
-  - exists 1%nat. cbn [msexpr]. rewrite H. exact H0.
-  - destruct IHmsev as [f Hf]. exists (S f). cbn [msexpr]. rewrite H0.
+  - exists 1%nat. cbn [mxexpr]. rewrite H. exact H0.
+  - exists 1%nat. cbn [mxexpr]. rewrite H. exact H0.
+  - destruct IHmsev as [f Hf]. exists (S f). cbn [mxexpr]. rewrite H0.
     destruct (nkind n); try discriminate; exact Hf.
-  - destruct IHmsev1 as [f1 H1]. destruct IHmsev2 as [f2 H2]. exists (S (f1 + f2)). cbn [msexpr].
-    rewrite (msexpr_mono _ _ _ _ H1 (f1 + f2)%nat), (msexpr_mono _ _ _ _ H2 (f1 + f2)%nat) by lia. reflexivity.
-  - destruct IHmsev1 as [f1 H1]. destruct IHmsev2 as [f2 H2]. exists (S (f1 + f2)). cbn [msexpr].
-    rewrite (msexpr_mono _ _ _ _ H1 (f1 + f2)%nat), (msexpr_mono _ _ _ _ H2 (f1 + f2)%nat) by lia. reflexivity.
-  - destruct IHmsev1 as [f1 H1]. destruct IHmsev2 as [f2 H2]. exists (S (f1 + f2)). cbn [msexpr].
-    rewrite (msexpr_mono _ _ _ _ H1 (f1 + f2)%nat), (msexpr_mono _ _ _ _ H2 (f1 + f2)%nat) by lia. reflexivity.
-  - destruct IHmsev as [f1 H1]. exists (S f1). cbn [msexpr]. rewrite H1. reflexivity.
-  - destruct IHmsev1 as [f1 H1]. destruct IHmsev2 as [f2 H2]. exists (S (f1 + f2)). cbn [msexpr].
-    rewrite (msexpr_mono _ _ _ _ H1 (f1 + f2)%nat) by lia. apply (msexpr_mono _ _ _ _ H2). lia.
+  - destruct IHmsev1 as [f1 H1]. destruct IHmsev2 as [f2 H2]. exists (S (f1 + f2)). cbn [mxexpr].
+    rewrite (mxexpr_mono _ _ _ _ H1 (f1 + f2)%nat), (mxexpr_mono _ _ _ _ H2 (f1 + f2)%nat) by lia. reflexivity.
+  - destruct IHmsev1 as [f1 H1]. destruct IHmsev2 as [f2 H2]. exists (S (f1 + f2)). cbn [mxexpr].
+    rewrite (mxexpr_mono _ _ _ _ H1 (f1 + f2)%nat), (mxexpr_mono _ _ _ _ H2 (f1 + f2)%nat) by lia. reflexivity.
+  - destruct IHmsev1 as [f1 H1]. destruct IHmsev2 as [f2 H2]. exists (S (f1 + f2)). cbn [mxexpr].
+    rewrite (mxexpr_mono _ _ _ _ H1 (f1 + f2)%nat), (mxexpr_mono _ _ _ _ H2 (f1 + f2)%nat) by lia. reflexivity.
+  - destruct IHmsev as [f1 H1]. exists (S f1). cbn [mxexpr]. rewrite H1. reflexivity.
+  - destruct IHmsev1 as [f1 H1]. destruct IHmsev2 as [f2 H2]. exists (S (f1 + f2)). cbn [mxexpr].
+    rewrite (mxexpr_mono _ _ _ _ H1 (f1 + f2)%nat) by lia. apply (mxexpr_mono _ _ _ _ H2). lia.
   - exists 1%nat. reflexivity.
-  - destruct IHmsev1 as [f1 H1]. destruct IHmsev2 as [f2 H2]. exists (S (f1 + f2)). cbn [msexpr].
-    rewrite (msexpr_mono _ _ _ _ H1 (f1 + f2)%nat), (msexpr_mono _ _ _ _ H2 (f1 + f2)%nat) by lia. reflexivity.
+  - destruct IHmsev1 as [f1 H1]. destruct IHmsev2 as [f2 H2]. exists (S (f1 + f2)). cbn [mxexpr].
+    rewrite (mxexpr_mono _ _ _ _ H1 (f1 + f2)%nat), (mxexpr_mono _ _ _ _ H2 (f1 + f2)%nat) by lia. reflexivity.
 Qed.
 
-Lemma MdlSpec_MSpecI : forall inp n v, MdlSpec p inp n v <-> MSpecI inp n v.
+Lemma MdlSpecX_MSpecI : forall inp n v, MdlSpecX p inp n v <-> MSpecI inp n v.
 Proof.
   intros inp n v. split.
-  - intros [f H]. eapply msexpr_msev; eauto.
-  - intro H. apply msev_msexpr. exact H.
+  - intros [f H]. eapply mxexpr_msev; eauto.
+  - intro H. apply msev_mxexpr. exact H.
 Qed.
 
 Lemma MSpecI_exec : forall inp n b v, is_mexec_kind (nkind n) = true -> alookup p n = Some b -> msev inp b v -> MSpecI inp n v.
 Proof. intros. eapply msev_exec; eauto. Qed.
-Lemma MSpecI_input : forall inp n v, nkind n = KInput -> input_get inp (nidx n) = Some v -> MSpecI inp n v.
+Lemma MSpecI_input : forall inp n v, nkind n = KInput -> input_get (fst inp) (nidx n) = Some v -> MSpecI inp n v.
 Proof. intros. eapply msev_input; eauto. Qed.
-Lemma MSpecI_input_inv : forall inp n v, nkind n = KInput -> MSpecI inp n v -> input_get inp (nidx n) = Some v.
-Proof. intros inp n v K H. inversion H; subst; [congruence|]. rewrite K in *. discriminate. Qed.
+Lemma MSpecI_input_inv : forall inp n v, nkind n = KInput -> MSpecI inp n v -> input_get (fst inp) (nidx n) = Some v.
+Proof. intros inp n v K H. inversion H; subst; [congruence|congruence|]. rewrite K in *. discriminate. Qed.
+Lemma MSpecI_ext : forall inp n v, nkind n = KExternal -> snd inp (nidx n) = Some v -> MSpecI inp n v.
+Proof. intros. eapply msev_ext; eauto. Qed.
+
+(** the evaluator without external inputs is the one with none of them known *)
+Lemma msexpr_mxexpr : forall f inp e, msexpr f p inp e = mxexpr f p (inp, no_ext) e.
+Proof.
+  induction f as [|f IH]; intros inp e; [reflexivity|]. cbn [msexpr mxexpr fst snd].
+  destruct e as [z|n|a b|a b|a m|a b|c a b|ns].
+  - reflexivity.
+  - destruct (nkind n); try reflexivity; (destruct (alookup p n); [apply IH|reflexivity]).
+  - rewrite !IH. reflexivity.
+  - rewrite !IH. reflexivity.
+  - rewrite !IH. reflexivity.
+  - rewrite !IH. reflexivity.
+  - rewrite IH. destruct (mxexpr f p (inp, no_ext) c); [apply IH|reflexivity].
+  - destruct ns as [|n ns]; [reflexivity|]. rewrite !IH. reflexivity.
+Qed.
+Lemma MdlSpec_MSpecI : forall inp n v, MdlSpec p inp n v <-> MSpecI (inp, no_ext) n v.
+Proof.
+  intros inp n v. rewrite <- MdlSpecX_MSpecI. unfold MdlSpec, MdlSpecX. split; intros [f H]; exists f.
+  - rewrite <- msexpr_mxexpr. exact H.
+  - rewrite msexpr_mxexpr. exact H.
+Qed.
+
+(** a program that reads no external input does not look at their values *)
+Lemma msev_noext : forall env xe', (forall n b d, alookup p n = Some b -> In d (expr_reads b) -> nkind d <> KExternal) ->
+  forall e v, msev env e v -> (forall d, In d (expr_reads e) -> nkind d <> KExternal) -> msev (fst env, xe') e v.
+Proof.
+  intros env xe' Hp e v H. induction H; intro Hr; cbn [expr_reads] in Hr.
+  - constructor.
+  - apply msev_input; assumption.
+  - exfalso. apply (Hr n); [left; reflexivity|assumption].
+  - eapply msev_exec; [eassumption|eassumption|]. apply IHmsev. intros d Hd. eapply Hp; eauto.
+  - constructor; [apply IHmsev1|apply IHmsev2]; intros; apply Hr; apply in_or_app; auto.
+  - constructor; [apply IHmsev1|apply IHmsev2]; intros; apply Hr; apply in_or_app; auto.
+  - constructor; [apply IHmsev1|apply IHmsev2]; intros; apply Hr; apply in_or_app; auto.
+  - constructor. apply IHmsev. exact Hr.
+  - econstructor.
+    + apply IHmsev1. intros; apply Hr; apply in_or_app; auto.
+    + apply IHmsev2. intros d Hd. apply Hr. apply in_or_app. right. apply in_or_app. destruct (x =? 0); auto.
+  - constructor.
+  - constructor; [apply IHmsev1; intros d [<-|[]]; apply Hr; left; reflexivity|].
+    apply IHmsev2. intros d Hd. apply Hr. right. exact Hd.
+Qed.
 
 (** * oracle evaluations with their reads *)
 Inductive evr (R : node -> Z -> Prop) : expr -> Z -> list node -> Prop :=
